@@ -175,6 +175,13 @@ AddOutIns(n, to) == IF ~rel[to] THEN [ins EXCEPT ![to] = Append(@, n)] ELSE ins
 AddOutSpawn(n, to) == (IF inv[n] /\ ~inv[to] THEN << <<FInv(to)>> >> ELSE <<>>)
                       \o (IF AddOutOut(n, to)[n] = {} THEN <<FRel(n)>> ELSE <<>>)
 
+\* reactive.AddDependency(ctx, r) with a context that has no rerunner: n.addOut(&node{released: true}). No edge is
+\* added; the resource is released only if nothing depends on it (a resource somebody else still depends on must be
+\* left alone).  Not part of Next (the model checker's environment does not do it); trace validation uses it.
+ForeignTouch(n) ==
+  /\ tasks' = BAddAll(tasks, IF out[n] = {} THEN << FRel(n) >> ELSE <<>>)
+  /\ UNCHANGED gvars /\ UNCHANGED rvars /\ UNCHANGED evars
+
 -----------------------------------------------------------------------------
 \* rerunner.go
 
